@@ -158,8 +158,9 @@ def calculate_time_slot(
     runner_start_time = runner_position * time_slot_size
     runner_end_time = runner_start_time + time_slot_size - spread_margin
 
-    # Ensure the window is valid
-    if runner_end_time <= runner_start_time:
+    # Ensure the window is valid (a margin that does not fit into the slot must
+    # fall back even when float rounding of start + slot - margin lands above start)
+    if spread_margin >= time_slot_size or runner_end_time <= runner_start_time:
         runner_end_time = runner_start_time + (time_slot_size / 2)
 
     # Validate against actual execution history if available
